@@ -256,12 +256,19 @@ def search_c02(tier="quick"):
     cases = []
     for i in ids:
         cases.append(("request", lambda i=i: jm.create_request("tools/call", {"a": [1, None]}, id=i), dict(id=i, method="tools/call", params={"a": [1, None]})))
+        cases.append(("request", lambda i=i: jm.create_request("tools/call", {"name": "t", "arguments": {"n": None, "o": {"m": None}}}, id=i),
+                      dict(id=i, method="tools/call", params={"name": "t", "arguments": {"n": None, "o": {"m": None}}})))
+        cases.append(("response", lambda i=i: jm.create_response(i, {"v": None, "o": {"n": None}, "l": [], "z": 0, "f": False, "e": ""}),
+                      dict(id=i, result={"v": None, "o": {"n": None}, "l": [], "z": 0, "f": False, "e": ""})))
         cases.append(("request", lambda i=i: jm.create_request("ping", None, id=i), dict(id=i, method="ping")))
         cases.append(("response", lambda i=i: jm.create_response(i, {"x": 1}), dict(id=i, result={"x": 1})))
         cases.append(("response", lambda i=i: jm.create_response(i, None), dict(id=i, result={})))
         cases.append(("error", lambda i=i: jm.create_error_response(i, -32601, "nope"), dict(id=i)))
     cases.append(("notification", lambda: jm.create_notification("notifications/initialized", None), dict(method="notifications/initialized")))
     cases.append(("notification", lambda: jm.create_notification("n", {"k": "v"}), dict(method="n", params={"k": "v"})))
+    base = importlib.import_module("chuk_mcp.protocol.mcp_pydantic_base")
+    fallback = not getattr(base, "PYDANTIC_AVAILABLE", True)
+    classified = []
     for kind, build, want in cases:
         n += 1
         try:
@@ -270,6 +277,15 @@ def search_c02(tier="quick"):
         except Exception as ex:      # noqa: BLE001
             return dict(reproduced=True, input=dict(kind=kind, members=want), observed=f"{type(ex).__name__}: {ex}", required="an envelope")
         p = envelope_problems(d, kind, want)
+        wid = want.get("id")
+        if p and fallback and isinstance(wid, str) and wid.lstrip("-").isdigit() and d.get("id") == int(wid):
+            # the pure-python backend converts a digit-string id into an int (deliberate "permissive int" coercion for
+            # Union[str, int] fields): a failure of "id kept with value and type" of a NAMED class, reported separately
+            if not classified:
+                classified.append(dict(cls="fallback-backend-coerces-digit-string-ids", input=dict(kind=kind, members=want),
+                                       observed=f"emitted id {d.get('id')!r} ({type(d.get('id')).__name__})",
+                                       required=f"id {wid!r} kept with its JSON type"))
+            continue
         if p is None and kind == "error":
             e = d.get("error")
             if not (isinstance(e, dict) and e.get("code") == -32601 and e.get("message") == "nope"):
@@ -285,7 +301,20 @@ def search_c02(tier="quick"):
         p = envelope_problems(bd, kind, {k: v for k, v in d.items() if k in ("id", "method", "params", "result", "error")})
         if p:
             return dict(reproduced=True, input=d, observed=f"parsed back as {bd}: {p}"[:500], required="the same kind with identical members")
-    return dict(reproduced=False, cases=n, bound=f"{len(ids)} ids x 5 constructor calls + 2 notifications (bounded, not a proof)")
+    # responses whose result is falsy but present (the parser must go by member presence, not truthiness)
+    for res in ({}, [], 0, "", False, 0.0):
+        n += 1
+        d = {"jsonrpc": "2.0", "id": 1, "result": res}
+        try:
+            back = jm.parse_message(d).model_dump(exclude_none=True)
+        except Exception as ex:      # noqa: BLE001
+            if isinstance(res, dict):
+                return dict(reproduced=True, input=d, observed=f"parse_message raised {type(ex).__name__}: {ex}", required="a response")
+            continue      # non-object results are outside the typed envelope (see C11 known finding)
+        if back.get("result") != res or "error" in back or "method" in back:
+            return dict(reproduced=True, input=d, observed=f"parsed back as {back}", required="the same response")
+    return dict(reproduced=False, cases=n, classified=classified,
+                bound=f"{len(ids)} ids x 7 constructor calls + 2 notifications + 6 falsy results (bounded, not a proof)")
 
 
 REGISTRY["C02."] = search_c02
